@@ -59,6 +59,8 @@ int cp_sokdl_sig(bn_t c, bn_t s, const uint8_t *msg, size_t len, const ec_t y,
 		if (m == NULL) {
 			RLC_THROW(ERR_NO_MEMORY);
 		}
+		/* The identity is written in one byte: no unwritten byte may be hashed. */
+		memset(m, 0, len + 3 * (RLC_FC_BYTES + 1));
 
 		buf = m;
 		ec_curve_get_ord(n);
@@ -117,6 +119,8 @@ int cp_sokdl_ver(const bn_t c, const bn_t s, const uint8_t *msg, size_t len,
 		if (m == NULL) {
 			RLC_THROW(ERR_NO_MEMORY);
 		}
+		/* The identity is written in one byte: no unwritten byte may be hashed. */
+		memset(m, 0, len + 3 * (RLC_FC_BYTES + 1));
 
 		buf = m;
 		ec_curve_get_ord(n);
@@ -185,6 +189,8 @@ int cp_sokor_sig(bn_t c[2], bn_t s[2], const uint8_t *msg, size_t len,
 		if (m == NULL) {
 			RLC_THROW(ERR_NO_MEMORY);
 		}
+		/* The identity is written in one byte: no unwritten byte may be hashed. */
+		memset(m, 0, len + 6 * (RLC_FC_BYTES + 1));
 
 		buf = m;
 		ec_curve_get_ord(n);
@@ -282,6 +288,8 @@ int cp_sokor_ver(const bn_t c[2], const bn_t s[2], const uint8_t *msg,
 		if (m == NULL) {
 			RLC_THROW(ERR_NO_MEMORY);
 		}
+		/* The identity is written in one byte: no unwritten byte may be hashed. */
+		memset(m, 0, len + 6 * (RLC_FC_BYTES + 1));
 
 		buf = m;
 		ec_curve_get_ord(n);
